@@ -131,11 +131,26 @@ class Machine:
             raise out["exc_obj"]
         return v
 
-    def _new_obj(self, cname, flags=None):
+    def _manual_ctor(self, cname, obj, real, manual):
+        """After a constructor call that returned, every invariant of the class must hold on the object when evaluated by hand."""
+        cls = self.world.classes[cname]
+        invs = getattr(cls, "__invariants__", None) or []
+        idx = {id(c): sid for sid, c in self.world.contracts.items()}
+        self.manual_checks += 1
+        for inv in invs:
+            ok = self.ctx.run(self._manual_inv, inv, obj, {"id": "ctor%d" % self.n_probe})
+            if not ok:
+                manual.append(("%s.__init__" % cname, None, ["viol", idx.get(id(inv), "?")], real))
+                return
+        manual.append(("%s.__init__" % cname, None, ["ret"], real))
+
+    def _new_obj(self, cname, flags=None, content=None):
         self.n_obj += 1
         label = "x%d" % self.n_obj
         self.n_probe += 1
         td = {"id": "n%d" % self.n_probe, "fn": "__init__", "op": "new", "cls": cname, "obj": label}
+        if content is not None:
+            td["content"] = content
         if flags:
             td["flags"] = flags
         v = self._call(td)
@@ -185,7 +200,15 @@ class Machine:
         for s in [None] + invs:
             label, v = self._new_obj(name, {s: False} if s else None)
             vv["new:%s" % (s or "ok")] = v
+        if self.world._builtin_root(name):
+            # filled with three elements: invariants on the content must be judged on the *constructed* object
+            lab3, v3 = self._new_obj(name, None, content=3)
+            vv["new:content3"] = v3
+            if manual is not None and v3[0] == "ret":
+                self._manual_ctor(name, self.world.objects[lab3], v3, manual)
         label, v = self._new_obj(name)
+        if manual is not None and v[0] == "ret":
+            self._manual_ctor(name, self.world.objects[label], v, manual)
         if v[0] != "ret":
             return vv
         obj = self.world.objects[label]
@@ -351,17 +374,24 @@ class Machine:
         cur = cls.__dict__.get(m)
         if cur is None:
             raise core.HarnessError("late decoration of a member the class does not define itself")
-        spec_own = [x for x in self.world.cspec[cname].get("methods", ()) if x["name"] == m and x.get("kind", "method") == "method"]
+        spec_own = [x for x in self.world.cspec[cname].get("methods", ()) if x["name"] == m and x.get("kind", "method") in ("method", "prop")]
         if not spec_own:
             raise core.HarnessError("late decoration of a member the class does not declare itself")
+        is_prop = isinstance(cur, property)
+        target = cur.fget if is_prop else cur
+        params = ("self",) if is_prop else ("t",)
         n = len([s for s in self.world.contracts if s.startswith("%s/%s" % (unit, role))])
         sid = "%s/%s%d" % (unit, role, n + 10)
         if role == "pre":
-            dec = icontract.require(self.world._fn("c_" + core._san(sid), ("t",), "sync", sid, "pre"), description="[[%s]]" % sid, enabled=True)
+            dec = icontract.require(self.world._fn("c_" + core._san(sid), params, "sync", sid, "pre"), description="[[%s]]" % sid, enabled=True)
         else:
-            dec = icontract.ensure(self.world._fn("c_" + core._san(sid), ("t", "result"), "sync", sid, "post"), description="[[%s]]" % sid, enabled=True)
-        new = dec(cur)
-        setattr(cls, m, new)
+            dec = icontract.ensure(self.world._fn("c_" + core._san(sid), params + ("result",), "sync", sid, "post"), description="[[%s]]" % sid, enabled=True)
+        new = dec(target)
+        if is_prop:
+            if new is not target:
+                setattr(cls, m, property(new, cur.fset, cur.fdel))
+        else:
+            setattr(cls, m, new)
         self.world.contracts[sid] = dec._contract
         return sid
 
